@@ -111,7 +111,13 @@ def _interval(qu, qv, qz, du, dv, dz, r, h, grow, grow_r=None):
         # numerically stable pair of roots
         s = np.where(B >= 0, -B - sq, -B + sq)
         t_a = np.where(par, LD(0), s / np.where(par, LD(1), A))
-        t_b = np.where(s != 0, C / np.where(s != 0, s, LD(1)), t_a)
+        # disc is known to an absolute error e_d ~ eps_LD (A rr^2 + cr^2) only.  For a ray that
+        # starts on the lateral surface and is tangent there to rounding (B ~ 0, C ~ 0,
+        # disc ~ 0) s consists of rounding errors and C / s is arbitrary: the two roots then
+        # coincide to ~1e-8 r / sqrt(A) - a double root (chord below any decided width).
+        e_d = LD(8) * LD(np.finfo(LD).eps) * (A * rr * rr + cr * cr)
+        solid_s = s * s > LD(256) * e_d
+        t_b = np.where(solid_s, C / np.where(solid_s, s, LD(1)), t_a)
         c_lo = np.where(par, -_INF, np.minimum(t_a, t_b))
         c_hi = np.where(par, _INF, np.maximum(t_a, t_b))
         # slab
